@@ -868,6 +868,11 @@ def as_relation(fact):
     """Normalise a fact (E, truth) whose E is a comparison into (op, lhs, rhs) that holds; else None.
     Recognises MIR BinOp comparisons and PartialOrd/PartialEq method calls."""
     e, truth = fact[0], fact[1]
+    if isinstance(truth, tuple) and e.kind != 'discr' and len(truth) == 2 and truth[0] in ('in', 'not') and len(truth[1]) == 1 \
+            and all(isinstance(x, int) and not isinstance(x, bool) for x in truth[1]):
+        # `match n { 0 => .., _ => .. }` on an integer is a comparison with that constant
+        c = next(iter(truth[1]))
+        return Rel('Eq' if truth[0] == 'in' else 'Ne', e, E('const', info={'int': c, 'ty': 'usize'}))
     if isinstance(truth, tuple) and e.kind == 'discr' and e.a is not None:
         # match NonZero::new(x) { Some(_) => .., None => .. } is a test of x against zero
         c = e.a.strip()
